@@ -168,6 +168,39 @@ CHECKS = {
         design="§4 C15",
         technique="Lean 4 proof + bit-exact model/implementation correspondence",
     ),
+    "C05": dict(
+        text="Lean 4 theorems over an abstract store semantics (objects, references, copy/deepcopy/clone; effect language writeAttr / mutateVia / bind / callFit / "
+        "callQuery): frameOK_preserves_params (a summary passing the decidable predicate FrameOK leaves get_params of self, every argument object and every "
+        "caller-owned cell unchanged, also on exceptional exit), frameOK_sequence (any number of consecutive queries), frameOK_closed_under_callQuery (wrappers). "
+        "Tie 1: an AST translator regenerates the effect summary of every pool strategy's query from the current source on every run; 32 per-class obligations "
+        "`by decide`. Tie 2: deep before/after snapshots on the real objects (input arrays incl. read-only views, get_params(deep=True), caller models, pickle, "
+        "clone twin) for every class x configuration x candidate mode validate the summaries and are the property's oracle.",
+        design="Part I §I.2, Part II §4 C05",
+        technique="Lean 4 proof over an effect abstraction + AST translation validated by dynamic snapshots",
+        note="Trusted: Lean kernel (axioms audited); that effect summaries over-approximate the Python semantics (validated dynamically, not proved); numpy aliasing is not "
+        "modelled, so immutability of the input arrays is established by the snapshot runs only.",
+    ),
+    "C13": dict(
+        text="Lean 4 theorems: frame_fit_history_free (a fit whose summary reads no fitted attribute before writing it and certainly writes what it may write equals "
+        "a fit on a fresh object and preserves get_params), public_calls_preserve_params, window_is_last_w_partial (SlidingWindowClassifier equals a fit on exactly the "
+        "last window_size samples, with the counterexample for the recorded non-atomic error path). 100 generated obligations over every public method of 32 "
+        "estimator / manager / stream classes. Dynamic tie: refit-vs-fresh-clone on different data, get_params and caller dicts before/after every public call in "
+        "random call sequences, window op sequences against the Lean window model.",
+        design="Part I §I.2, Part II §4 C13",
+        technique="Lean 4 proof over an effect abstraction + window model; AST translation validated dynamically",
+        note="Trusted: Lean kernel (axioms audited); effect summaries over-approximate the Python semantics (validated dynamically); three documented imprecisions in "
+        "harness/translate/expected.json.",
+    ),
+    "C06": dict(
+        text="Lean 4 theorems over programs with two random sources (own, global): no_global_independent (no draw site or unseeded constructor uses the global source "
+        "=> the result is independent of the global generator), run_det, pool_repeat_equal (check_random_state(seed, multiplier) modelled). 121 generated obligations "
+        "over the RNG draw-site tables of 64 classes. Dynamic tie: twin objects, repeated calls and three different np.random.seed states must agree for every class "
+        "x configuration.",
+        design="Part I §I.2, Part II §4 C06",
+        technique="Lean 4 proof over an RNG-source abstraction + AST translation validated dynamically",
+        note="Trusted: Lean kernel (axioms audited); RNG-site tables over-approximate the Python semantics (validated dynamically); third-party estimators are deterministic "
+        "given their random_state; thread-level nondeterminism is not modelled.",
+    ),
 }
 
 NOT_YET = "check not built yet in this round (design in DESIGN.md §4); no claim is made"
